@@ -29,6 +29,7 @@
      whose keys are exactly (CPRResponse,)
    "if retry and get_app().is_done": the keys     pb (push-back), put in front of the queue by process_q
      left in the buffer go back to input_queue
+   event.key_processor.feed(k, first=True)         feeds b key_sequence e (joins pb in call)
 *)
 From Coq Require Import ZArith List Bool.
 From PTK Require Import Lib.Py Gen.C03_AnsiSequences Model.C03_Vt100Parser.
@@ -79,6 +80,9 @@ Variable waits : E -> list kp -> bool.
 Variable eff : bid -> list kp -> E -> E * option res.
 Variable is_cprh : bid -> bool.          (* the binding of bindings/cpr.py *)
 Variable cpr_lookup : E -> option bid.   (* _handle_cpr_response: the binding a report is delivered to *)
+Variable feeds : bid -> list kp -> E -> list kp.
+  (* the key presses the handler puts at the FRONT of input_queue: event.key_processor.feed(k, first=True)
+     (the C-j binding of basic.py feeds KeyPress(ControlM)); the first element ends up first *)
 Variable restart : E -> E.               (* what a new prompt() resets *)
 Variable pfeed : str -> PS -> PS * list kp.
 Variable pflush : PS -> PS * list kp.
@@ -101,18 +105,24 @@ Record core := mkcore {
   wcpr : nat;
   rlog : list ev;           (* newest first *)
   oof : bool;               (* a fuelled loop ran out (never: C17_fuel) *)
-  pb : list kp              (* keys the coroutine pushed back to the front of input_queue *)
+  pb : list kp;             (* keys put at the front of input_queue during this activation: fed by
+                               a handler with first=True, or pushed back by the coroutine *)
+  deep : bool;              (* a key fed by a handler was handled by a handler that feeds again: outside the model *)
+  rpops : list kp           (* ghost: key presses popped from input_queue, in order *)
 }.
 
 Definition late (c : core) : bool := match cph c with CRun => false | _ => true end.
-Definition set_kbuf (b : list kp) (c : core) := mkcore (est c) b (cph c) (wcpr c) (rlog c) (oof c) (pb c).
-Definition set_oof (c : core) := mkcore (est c) (kbuf c) (cph c) (wcpr c) (rlog c) true (pb c).
-Definition clear_pb (c : core) := mkcore (est c) (kbuf c) (cph c) (wcpr c) (rlog c) (oof c) [].
+Definition set_kbuf (b : list kp) (c : core) := mkcore (est c) b (cph c) (wcpr c) (rlog c) (oof c) (pb c) (deep c) (rpops c).
+Definition set_oof (c : core) := mkcore (est c) (kbuf c) (cph c) (wcpr c) (rlog c) true (pb c) (deep c) (rpops c).
+Definition clear_pb (c : core) := mkcore (est c) (kbuf c) (cph c) (wcpr c) (rlog c) (oof c) [] (deep c) (rpops c).
+Definition set_pb (l : list kp) (c : core) := mkcore (est c) (kbuf c) (cph c) (wcpr c) (rlog c) (oof c) l (deep c) (rpops c).
+Definition set_deep (c : core) := mkcore (est c) (kbuf c) (cph c) (wcpr c) (rlog c) (oof c) (pb c) true (rpops c).
+Definition add_pop (k : kp) (c : core) := mkcore (est c) (kbuf c) (cph c) (wcpr c) (rlog c) (oof c) (pb c) (deep c) (rpops c ++ [k]).
 (* self.input_queue.extendleft(reversed(buffer)); del buffer[:] *)
-Definition push_back (c : core) := mkcore (est c) [] (cph c) (wcpr c) (rlog c) (oof c) (kbuf c ++ pb c).
-Definition set_cph (p : cphase) (c : core) := mkcore (est c) (kbuf c) p (wcpr c) (rlog c) (oof c) (pb c).
-Definition set_wcpr (n : nat) (c : core) := mkcore (est c) (kbuf c) (cph c) n (rlog c) (oof c) (pb c).
-Definition add_ev (e : ev) (c : core) := mkcore (est c) (kbuf c) (cph c) (wcpr c) (e :: rlog c) (oof c) (pb c).
+Definition push_back (c : core) := mkcore (est c) [] (cph c) (wcpr c) (rlog c) (oof c) (kbuf c ++ pb c) (deep c) (rpops c).
+Definition set_cph (p : cphase) (c : core) := mkcore (est c) (kbuf c) p (wcpr c) (rlog c) (oof c) (pb c) (deep c) (rpops c).
+Definition set_wcpr (n : nat) (c : core) := mkcore (est c) (kbuf c) (cph c) n (rlog c) (oof c) (pb c) (deep c) (rpops c).
+Definition add_ev (e : ev) (c : core) := mkcore (est c) (kbuf c) (cph c) (wcpr c) (e :: rlog c) (oof c) (pb c) (deep c) (rpops c).
 
 (* _call_handler: Application.exit raises when the result is already set *)
 Definition call (b : bid) (ks : list kp) (c : core) : core :=
@@ -123,7 +133,7 @@ Definition call (b : bid) (ks : list kp) (c : core) : core :=
           | Some x => match cph c with CRun => CDone x | _ => CBroken end
           end)
          (if is_cprh b then pred (wcpr c) else wcpr c)
-         (EInvoke (late c) b ks :: rlog c) (oof c) (pb c).
+         (EInvoke (late c) b ks :: rlog c) (oof c) (feeds b ks (est c) ++ pb c) (deep c) (rpops c).
 
 (* for i in range(len(buffer), 0, -1): matches = _get_matches(buffer[:i]) ... break *)
 Fixpoint scan (i : nat) (c : core) : option (bid * nat) :=
@@ -208,12 +218,40 @@ Definition with_co (c : core) (s : sys) :=
 Definition with_queue (q : list item) (s : sys) :=
   mksys (co s) (par s) (pipe s) (wclosed s) q (store s) (at_ s) (results s) (decoded s) (rcpr s) (soof s).
 
+(* The key presses a handler fed with first=True are the next ones process_keys
+   pops, before anything that was already waiting: as long as the result is not
+   set they are delivered at once, one after the other.  What is left when the
+   result gets set (fed keys not yet delivered, keys the coroutine pushed back)
+   stays in [pb], to go to the front of the queue.  One level: a fed key whose
+   own handler feeds again sets [deep] (and the model stops following). *)
+Fixpoint drain (l : list kp) (c : core) : core :=
+  match l with
+  | [] => c
+  | k :: l' =>
+      let c' := deliver (IKey k) c in
+      match cph c' with
+      | CRun => match pb c' with
+                | [] => drain l' c'
+                | _ :: _ => set_deep (clear_pb c')     (* the model gives up: flagged *)
+                end
+      | _ => set_pb (pb c' ++ l') c'
+      end
+  end.
+Definition deliver_d (it : item) (c : core) : core :=
+  let c' := deliver it c in
+  match cph c' with
+  | CRun => drain (pb c') (clear_pb c')
+  | _ => c'
+  end.
+
 (* process_keys: not_empty()/get_next() re-test app.is_done on every turn.
    While the result is not set the queue is popped from the left; once it is
    set only CPRResponse key presses are taken out (first one first), the other
    items stay where they are.  Written as one pass over the queue: the items
-   skipped in the second mode are returned in order; keys the coroutine pushed
-   back (the result is set then) go in front of them. *)
+   skipped in the second mode are returned in order; keys left in [pb] (the
+   result is set then) go in front of them. *)
+Definition pop (it : item) (c : core) : core :=
+  match it with IKey k => add_pop k c | IFlush => c end.
 Fixpoint process_q (q : list item) (c : core) : core * list item :=
   match q with
   | [] => (c, [])
@@ -221,11 +259,14 @@ Fixpoint process_q (q : list item) (c : core) : core * list item :=
       match cph c with
       | CBroken => (c, q)
       | CRun =>
-          let c' := deliver it c in
+          let c' := deliver_d it (pop it c) in
           let r := process_q q' (clear_pb c') in
           (fst r, map IKey (pb c') ++ snd r)
       | CDone _ =>
-          if item_is_cpr it then process_q q' (deliver it c)
+          if item_is_cpr it then
+            let c' := deliver it (pop it c) in
+            let r := process_q q' (clear_pb c') in
+            (fst r, map IKey (pb c') ++ snd r)
           else let r := process_q q' c in (fst r, it :: snd r)
       end
   end.
@@ -294,7 +335,7 @@ Definition step (s : sys) (l : label) : sys :=
       | Detached =>
           let c := co s in
           let lg := match kbuf c, queue s with [], [] => rlog c | _, _ => ELost (kbuf c) (queue s) :: rlog c end in
-          pk (mksys (mkcore (restart (est c)) [] CRun (wcpr c) (EStart :: lg) (oof c) (pb c))
+          pk (mksys (mkcore (restart (est c)) [] CRun (wcpr c) (EStart :: lg) (oof c) (pb c) (deep c) (rpops c))
                     (par s) (pipe s) (wclosed s) (store s) [] Attached (results s) (decoded s) (rcpr s) (soof s))
       | _ => s
       end
@@ -327,7 +368,7 @@ Definition step (s : sys) (l : label) : sys :=
 
 Definition run (ls : list label) (s : sys) : sys := fold_left step ls s.
 
-Definition init_core (e : E) : core := mkcore e [] CRun O [] false [].
+Definition init_core (e : E) : core := mkcore e [] CRun O [] false [] false [].
 Definition init (e : E) (p : PS) (r : bool) : sys :=
   mksys (init_core e) p [] false [] [] Detached [] [] r false.
 
